@@ -17,6 +17,7 @@ import (
 // concFiles are instrumented with a Yield before every statement for the concurrent checks.
 var concFiles = []string{
 	"internal/engine/command/commander.go",
+	"internal/engine/command/compiler.go",
 	"internal/engine/command/context.go",
 	"internal/engine/command/lock.go",
 	"internal/engine/command/reference.go",
